@@ -17,6 +17,7 @@ import (
 	"massnet.org/mass-wallet/masswallet/keystore"
 	"pgregory.net/rapid"
 	"verifharness/sim"
+	"verifharness/xdb"
 )
 
 type blockT = massutil.Block
@@ -63,6 +64,10 @@ type World struct {
 	c09mode           bool
 	depositsInMempool bool
 	peers             []*sim.Env // further wallet instances watching the same node
+	script            []hstep    // recorded steps (replayable on a fresh node + wallet)
+	recording         bool
+	ctl               *xdb.Ctl
+	ctlBase           int64
 	reservedExtra     map[wire.OutPoint]bool
 	// options
 	allowNullData bool
@@ -102,6 +107,14 @@ func newWorld(t *rapid.T, nWallets int, gap uint32, wrap func(mwdb.DB) mwdb.DB) 
 		w.close()
 		t.Fatalf("HARNESS: start: %v", err)
 	}
+	if worldRecording {
+		w.recording = true
+		w.ctl = worldRecCtl
+		if w.ctl != nil {
+			w.ctl.KeepTrace = true
+			w.ctlBase = w.ctl.Calls()
+		}
+	}
 	for i := 0; i < 3; i++ {
 		var h [32]byte
 		h[0], h[1], h[31] = 0xee, byte(i), byte(i+1)
@@ -138,6 +151,7 @@ func (w *World) importNewWallet(t *rapid.T, n int) *mwallet {
 			keys, _ = sim.EntropyFor(ent, pass)
 		}
 	}
+	w.record(hstep{Kind: "import", Keys: keys})
 	ws, err := w.env.W.ImportWalletWithMnemonic(&keystore.WalletParams{Mnemonic: keys.Mnemonic,
 		PrivatePassphrase: []byte(keys.Pass), Remarks: fmt.Sprintf("w%d", n), AddressGapLimit: w.gap})
 	if err != nil {
@@ -185,6 +199,7 @@ func (w *World) finishTasks(t *rapid.T) {
 		if !w.taskPending(t) {
 			return
 		}
+		w.record(hstep{Kind: "serve"})
 		ok, err := w.env.ServeWorker(20 * time.Second)
 		if err != nil {
 			t.Fatalf("HARNESS: worker: %v", err)
@@ -219,6 +234,7 @@ func (w *World) issueAddress(t *rapid.T, m *mwallet, class uint16) (string, erro
 	if _, err := w.env.W.UseWallet(m.id); err != nil {
 		t.Fatalf("UseWallet(%s): %v", m.id, err)
 	}
+	w.record(hstep{Kind: "newAddress", Wallet: m.id, Class: class})
 	addr, err := w.env.W.NewAddress(class)
 	if err != nil {
 		return "", err
@@ -565,6 +581,7 @@ func (w *World) actMine(t *rapid.T, announce bool) {
 		}
 	}
 	blk := w.buildBlock(t, w.node.Tip(), view, carry, 4)
+	w.record(hstep{Kind: "attach", Block: blk})
 	if err := w.node.Attach(blk); err != nil {
 		t.Fatalf("HARNESS: attach: %v\n  %s\n%s", err, w.journalTail(30), dumpBlock(blk))
 	}
@@ -617,6 +634,7 @@ func (w *World) actReorg(t *rapid.T) {
 		}
 	}
 	for i := 0; i < d; i++ {
+		w.record(hstep{Kind: "detach"})
 		if err := w.node.DetachTip(); err != nil {
 			t.Fatalf("HARNESS: detach: %v", err)
 		}
@@ -682,6 +700,7 @@ func (w *World) actReorg(t *rapid.T) {
 		}
 		remine = filterTx(remine, in)
 		conflicts = filterTx(conflicts, in)
+		w.record(hstep{Kind: "attach", Block: blk})
 		if err := w.node.Attach(blk); err != nil {
 			t.Fatalf("HARNESS: attach (reorg): %v", err)
 		}
@@ -721,6 +740,7 @@ func filterTx(txs []*wire.MsgTx, drop map[wire.Hash]bool) []*wire.MsgTx {
 
 // announce queues a tip notification for every wallet instance watching the node.
 func (w *World) announce(b *wire.MsgBlock) {
+	w.record(hstep{Kind: "announce", Msg: b})
 	w.env.Announce(b)
 	for _, p := range w.peers {
 		p.Announce(b)
@@ -733,6 +753,7 @@ func (w *World) actDeliver(t *rapid.T) {
 		t.Skip("no queued notification")
 	}
 	h := w.env.Queue[0].Header.Height
+	w.record(hstep{Kind: "deliver"})
 	_, err := w.env.Deliver()
 	if err != nil {
 		w.logf("deliver h=%d -> %v", h, err)
@@ -744,6 +765,7 @@ func (w *World) actDeliver(t *rapid.T) {
 func (w *World) deliverAll(t *rapid.T) {
 	for len(w.env.Queue) > 0 {
 		h := w.env.Queue[0].Header.Height
+		w.record(hstep{Kind: "deliver"})
 		if _, err := w.env.Deliver(); err != nil {
 			w.logf("deliver h=%d -> %v", h, err)
 		}
@@ -776,4 +798,27 @@ func dumpBlock(b *massutil.Block) string {
 		}
 	}
 	return sb.String()
+}
+
+var (
+	worldRecording bool
+	worldRecCtl    *xdb.Ctl
+)
+
+// hstep is one recorded step of a history: node operations carry the concrete block so that the
+// same history can be replayed on a fresh node and wallet instance.
+type hstep struct {
+	Kind   string // attach | detach | announce | deliver | serve | import | newAddress | remove
+	Block  *massutil.Block
+	Msg    *wire.MsgBlock
+	Wallet string
+	Class  uint16
+	Keys   *sim.WalletKeys
+	Pass   string
+}
+
+func (w *World) record(s hstep) {
+	if w.recording {
+		w.script = append(w.script, s)
+	}
 }
